@@ -1,3 +1,4 @@
+\* pruning part as coded: TLC is EXPECTED to violate PruneKeepsWindow (uint64 underflow; status loop ignores the window)
 SPECIFICATION Spec
 CONSTANTS
   MaxH = 5
